@@ -181,3 +181,10 @@ PROPS["C13"]["rule"] = PROPS["C13"]["rule"] + "; sched06 (forced schedules of re
 # inside the store, on the real BoltMetaDB; per-key register linearizability (implementation only)
 PROPS["C08"]["streams"] = PROPS["C08"]["streams"] + [S("stableconc", 40, 1500, vm=(0, 0), timeout=3000)]
 PROPS["C08"]["rule"] = PROPS["C08"].get("rule", "") + "; stableconc (implementation only, real BoltMetaDB behind a pass-through MetaStore): while a Get/Set of the main caller is inside the store -- effect done, result not yet seen by the WAL -- other keys are committed directly on the BoltMetaDB (large values: page reuse) and a second client runs whole Set/Get/SetUint64/GetUint64/StoreLogs/DeleteRange calls on the same keys; every call is recorded with invocation and return instants and the history of every key must be linearizable as a register (Wing-Gong search), also across clean reopens; the log must equal what was appended"
+
+# readfault (implementation only): transient READ errors in GetLog and in Open, and two reads in flight at once
+# (nested GetLog from inside the codec): C10 (no acknowledged entry lost / Open not broken by a failed read),
+# C12 and C06 (a pooled read buffer is never shared by two reads)
+for _p in ("C10", "C12", "C06"):
+    PROPS[_p]["streams"] = PROPS[_p]["streams"] + [S("readfault", 150, 4000, vm=(0, 0), timeout=3000)]
+    PROPS[_p]["rule"] = PROPS[_p].get("rule", "") + "; readfault (implementation only, crashfs): one ReadAt of a segment file fails once with EIO -- the k-th read of a GetLog (result must be an error or the right entry; afterwards all entries read back, also with a second GetLog nested inside the first one's Decode, whose input bytes must not change) and the k-th read of an Open (Open fails or returns the complete log; the next Open and a clean reopen return the complete log)"
